@@ -458,3 +458,17 @@ Proof.
   pose proof (bitlen_pos _ Hp) as [_ Hlt].
   apply Z.pow_lt_mono_r_iff in Hlt; lia.
 Qed.
+
+(* Sort only re-orders *)
+From Coq Require Import Permutation.
+Lemma insert_sorted_perm x l : Permutation (insert_sorted x l) (x :: l).
+Proof.
+  induction l as [|y r IH]; [apply Permutation_refl|]. cbn [insert_sorted].
+  destruct (x <=? y); [apply Permutation_refl|].
+  eapply perm_trans; [apply perm_skip; exact IH|apply perm_swap].
+Qed.
+Lemma sort_perm l : Permutation (sort l) l.
+Proof.
+  unfold sort. induction l as [|x l IH]; [apply perm_nil|]. cbn [fold_right].
+  eapply perm_trans; [apply insert_sorted_perm|apply perm_skip; exact IH].
+Qed.
